@@ -42,12 +42,18 @@ SegFails(S, st, seg) ==
          LET calls == SelectSeq(evs, LAMBDA e : e.ev # "rt.tokens") IN
          Chk(Len(calls) = 1 /\ IsBgl(S, calls[1], g), "get_bind_group_layout of group " \o g \o " did not create exactly the layout of that group")
     [] seg.op = "from_bindings" ->
-         IF ~(Len(evs) = 2 /\ IsBgl(S, evs[1], g) /\ evs[2].ev = "rt.create_bind_group")
-         THEN { "from_bindings of group " \o g \o " did not create the group's layout and then one bind group" }
-         ELSE LET b == evs[2] IN
-              Chk(b.layout = evs[1].id, "bind group " \o g \o " was not created with its own layout")
-              \cup Chk(Range(BindingsOf(b.entries)) = Range(BindingsOf(evs[1].entries)) /\ Len(b.entries) = Len(evs[1].entries),
-                       "bind group " \o g \o " supplies bindings " \o ToString(BindingsOf(b.entries)) \o " but its layout has " \o ToString(BindingsOf(evs[1].entries)))
+         (* the group's layout is created here (what the generator does) or one created earlier for the same group is reused *)
+         LET n == Len(evs) IN
+         IF ~(n \in {1, 2} /\ evs[n].ev = "rt.create_bind_group" /\ (n = 2 => IsBgl(S, evs[1], g)))
+         THEN { "from_bindings of group " \o g \o " did not create one bind group (after at most the group's own layout)" }
+         ELSE LET b == evs[n]
+                  lay == IF n = 2 THEN evs[1] ELSE (CHOOSE x \in st.lay : TRUE)
+                  known == { x.id : x \in { y \in st.lay : y.group = g } } \cup (IF n = 2 THEN { evs[1].id } ELSE {})
+                  layBindings == IF n = 2 THEN BindingsOf(evs[1].entries) ELSE ExpectedBindings(S, g)
+              IN
+              Chk(b.layout \in known, "bind group " \o g \o " was not created with a layout of its own group")
+              \cup Chk(Range(BindingsOf(b.entries)) = Range(layBindings) /\ Len(b.entries) = Len(layBindings),
+                       "bind group " \o g \o " supplies bindings " \o ToString(BindingsOf(b.entries)) \o " but its layout has " \o ToString(layBindings))
               \cup UNION { LET r == GroupVars(S, g)[i]
                                m == { j \in DOMAIN b.entries : b.entries[j].binding = r.binding }
                            IN Chk(Cardinality(m) = 1 /\ (\A j \in m : ResMatches(b.entries[j].res, TokenOf(st, g, r.name))),
@@ -63,18 +69,25 @@ SegFails(S, st, seg) ==
              seg.op \o " on a " \o seg.arg \o " pass did not bind every group at its own index exactly once, in index order")
     [] seg.op = "create_pipeline_layout" ->
          LET order == GroupOrder(S)
-             n == Len(order) IN
-         Chk(Len(evs) = n + 1
-             /\ (\A i \in 1 .. n : IsBgl(S, evs[i], order[i]))
-             /\ evs[n + 1].ev = "rt.create_pipeline_layout"
-             /\ evs[n + 1].bgls = [ i \in 1 .. n |-> evs[i].id ],
+             n == Len(order)
+             bgls == SelectSeq(evs, LAMBDA e : e.ev = "rt.create_bgl")
+             pls == SelectSeq(evs, LAMBDA e : e.ev = "rt.create_pipeline_layout")
+             known(gg) == { x.id : x \in { y \in st.lay : y.group = gg } } \cup { e.id : e \in { x \in Range(bgls) : IsBgl(S, x, gg) } }
+         IN
+         Chk(Len(pls) = 1 /\ Len(evs) = Len(bgls) + 1 /\ evs[Len(evs)].ev = "rt.create_pipeline_layout"
+             /\ Len(pls[1].bgls) = n /\ (\A i \in 1 .. n : pls[1].bgls[i] \in known(order[i])),
              "create_pipeline_layout does not list the group layouts in index order 0..n-1")
     [] OTHER -> {}
 
 (* pass of a `set` segment: the pass kind is carried by the recorded call itself; every kind is exercised *)
-SegUpdate(S, st, seg) ==
-  IF seg.op = "from_bindings" /\ Len(seg.evs) = 2 /\ seg.evs[2].ev = "rt.create_bind_group"
-  THEN [ st EXCEPT !.bg = [ x \in DOMAIN st.bg \cup {seg.arg} |-> IF x = seg.arg THEN seg.evs[2].id ELSE st.bg[x] ] ]
+NewLayouts(S, seg) ==
+  IF seg.op \in {"get_layout", "from_bindings"}
+  THEN { [ group |-> seg.arg, id |-> e.id ] : e \in { x \in Range(seg.evs) : x.ev = "rt.create_bgl" /\ IsBgl(S, x, seg.arg) } }
+  ELSE {}
+SegUpdate(S, st0, seg) ==
+  LET st == [ st0 EXCEPT !.lay = st0.lay \cup NewLayouts(S, seg) ] IN
+  IF seg.op = "from_bindings" /\ Len(seg.evs) \in {1, 2} /\ seg.evs[Len(seg.evs)].ev = "rt.create_bind_group"
+  THEN [ st EXCEPT !.bg = [ x \in DOMAIN st.bg \cup {seg.arg} |-> IF x = seg.arg THEN seg.evs[Len(seg.evs)].id ELSE st.bg[x] ] ]
   ELSE IF seg.op = "get_layout"
   THEN LET t == SelectSeq(seg.evs, LAMBDA e : e.ev = "rt.tokens") IN
        IF t = << >> THEN st
@@ -87,7 +100,7 @@ Fold(S, segs, i, st, fails) ==
   ELSE LET st2 == SegUpdate(S, st, segs[i]) IN
        Fold(S, segs, i + 1, st2, fails \cup SegFails(S, st2, segs[i]))
 
-RunFails(S, evs) == Fold(S, Segs(evs, 1, << >>), 1, [ bg |-> << >>, tok |-> << >> ], {})
+RunFails(S, evs) == Fold(S, Segs(evs, 1, << >>), 1, [ bg |-> << >>, tok |-> << >>, lay |-> {} ], {})
 
 (* the resource struct: exactly one field per variable of the group, named after it, typed by kind *)
 FieldFails(S, evs) ==
